@@ -219,6 +219,7 @@ func c14(c *core.Ctx) {
 			c.Missing("unary HTTP handler closure in httpgrpc")
 		}
 		c14ClientHeader(c, statusKey)
+		c14ReplyHeadersOnlyRead(c)
 		c.EndRule()
 	}
 
@@ -459,6 +460,10 @@ func c14ServerHeader(c *core.Ctx, hc handlerClosure) string {
 			}
 		}
 		c.Check(ok, name+":header-value", setCall.Pos(), why, why)
+		// the transport's status header wins over whatever the handler put into its response metadata under that
+		// name: no writer that replaces entries of the response's header map runs after the store
+		later := replacingWriterAfter(setCall.Parent(), setCall)
+		c.Check(later == nil, name+":status-header-wins", setCall.Pos(), "no writer that replaces entries of the header map runs after the status header is set", "after the status header is set, a later writer copies the handler's metadata into the same header map by assignment: handler metadata named x-grpc-status replaces the transport's status, and the caller sees that instead of the handler's code")
 	}
 	return key
 }
@@ -525,6 +530,18 @@ func c14ClientHeader(c *core.Ctx, serverKey string) {
 	if parse == nil {
 		c.Fail(name+":parse", dec.Pos(), "no numeric parse of the status header found")
 		return
+	}
+	// the parser accepts everything the writer's "%d" of the status proto's int32 Code field produces: a signed
+	// parse of at least 32 bits (codes >= 2^31 travel as negative numbers)
+	{
+		pci := core.InfoOf(&parse.Call)
+		okSigned := pci.Is("strconv.Atoi")
+		if pci.Is("strconv.ParseInt") && len(parse.Call.Args) == 3 {
+			if bits, isC := core.ConstInt(parse.Call.Args[2]); isC && (bits == 0 || bits >= 32) {
+				okSigned = true
+			}
+		}
+		c.Check(okSigned, name+":parse-accepts-what-is-written", parse.Pos(), "the status code is parsed as a signed integer of >= 32 bits, the inverse of the writer's %d of an int32", "the status code is parsed with "+pci.Full()+", which rejects part of what the writer's %d of the status proto's int32 Code produces (codes >= 2^31 are written as negative numbers): for those the client falls back to the HTTP approximation")
 	}
 	// parse input must derive from the header value (SplitN(Header.Get(..)))
 	// the conversion of the parsed number into a codes.Code
@@ -991,3 +1008,79 @@ func derefStructT(t types.Type) *types.Struct {
 
 var _ = ast.Inspect
 var _ = constant.MakeBool
+
+// c14ReplyHeadersOnlyRead: what the server put into the reply's headers is what
+// the status decoder reads: nothing on the client side deletes, sets or adds
+// entries of an *http.Response's Header (directly, or through a helper that is
+// handed that map).
+func c14ReplyHeadersOnlyRead(c *core.Ctx) {
+	p := c.P
+	fns := p.LibFuncs("httpgrpc")
+	isReplyHeader := func(v ssa.Value, fn *ssa.Function) bool { return false }
+	var rec func(v ssa.Value, fn *ssa.Function, depth int) bool
+	rec = func(v ssa.Value, fn *ssa.Function, depth int) bool {
+		for _, o := range core.Origins(v) {
+			if base, f, ok := core.FieldOf(o); ok && f == "Header" && core.QualNamedOf(base.Type()) == "net/http.Response" {
+				return true
+			}
+			if r := core.ResolveFree(o); r != o && depth < 2 {
+				if rec(r, fn, depth+1) {
+					return true
+				}
+				continue
+			}
+			par, isPar := o.(*ssa.Parameter)
+			if !isPar || depth >= 2 {
+				continue
+			}
+			pf := par.Parent()
+			idx := -1
+			for i, pp := range pf.Params {
+				if pp == par {
+					idx = i
+				}
+			}
+			for _, caller := range fns {
+				for _, cs := range core.CallsIn(caller, func(_ *ssa.Call, ci core.CallInfo) bool { return ci.Static == pf }) {
+					if idx >= 0 && idx < len(cs.Call.Args) && rec(cs.Call.Args[idx], caller, depth+1) {
+						return true
+					}
+				}
+			}
+		}
+		return false
+	}
+	isReplyHeader = func(v ssa.Value, fn *ssa.Function) bool { return rec(v, fn, 0) }
+	n, bad := 0, 0
+	for _, fn := range fns {
+		core.Instrs(fn, func(in ssa.Instruction) {
+			var h ssa.Value
+			what := ""
+			switch x := in.(type) {
+			case *ssa.Call:
+				ci := core.InfoOf(&x.Call)
+				if ci.Pkg == "net/http" && ci.Recv == "Header" && (ci.Name == "Del" || ci.Name == "Set" || ci.Name == "Add") {
+					h, what = x.Call.Args[0], "Header."+ci.Name
+				}
+				if b, ok := x.Call.Value.(*ssa.Builtin); ok && b.Name() == "delete" && core.TypeStr(x.Call.Args[0].Type()) == "net/http.Header" {
+					h, what = x.Call.Args[0], "delete"
+				}
+			case *ssa.MapUpdate:
+				if core.TypeStr(x.Map.Type()) == "net/http.Header" {
+					h, what = x.Map, "assignment"
+				}
+			}
+			if h == nil {
+				return
+			}
+			n++
+			if isReplyHeader(h, fn) {
+				bad++
+				c.Fail(core.FuncName(fn)+":reply-headers-only-read", in.Pos(), "%s on the reply's header map: the status (and details) headers the server sent can be removed or replaced before the status decoder reads them, and the client falls back to the HTTP-status approximation of the code", what)
+			}
+		})
+	}
+	if bad == 0 {
+		c.Ok("httpgrpc:reply-headers-only-read", token.NoPos, "%d header-map mutations in httpgrpc, none on an *http.Response's Header", n)
+	}
+}
